@@ -45,6 +45,28 @@ if [ "$mode" = confirm ]; then
   cd /; git -C /repo worktree remove --force "$wt"
   exit 0
 fi
+if [ "$mode" = reconfirm ]; then
+  # tools/mutant.sh reconfirm <seeded-name> [patchfile]   re-confirm a stored change (or a re-based patch for it) on /repo HEAD
+  name=$2; patch=${3:-/verif/seeded/$name/patch.diff}
+  wt=/tmp/vm/re.$name; rm -rf "$wt"; git -C /repo worktree prune; mkdir -p /tmp/vm
+  git -C /repo worktree add -q "$wt" HEAD || exit 2
+  cd "$wt"
+  if ! git apply "$patch" 2>/tmp/vm/re.$name.apply.log; then echo "APPLY-FAILED $(head -3 /tmp/vm/re.$name.apply.log)"; cd /; git -C /repo worktree remove --force "$wt"; exit 3; fi
+  echo "patched files: $(git diff --stat | tail -1)"
+  (go build ./... && go build -tags verif ./... && go vet ./... ) > /tmp/vm/re.$name.build.log 2>&1 && echo "build+vet: ok" || { echo "build+vet: FAILED"; tail -5 /tmp/vm/re.$name.build.log; }
+  suite "$wt"
+  demo=/verif/seeded/$name/demo_test.go.txt
+  pkg=$(head -3 "$demo" | grep -oE '\b(ship|hub|ws|mdns|cert|api|util)\b' | head -1)
+  [ -z "$pkg" ] && pkg=$(grep -m1 '^package ' "$demo" | awk '{print $2}' | sed 's/_test$//')
+  race=""; head -5 "$demo" | grep -q 'needs: -race' && race="-race"
+  cp "$demo" "$wt/$pkg/zz_demo_test.go"
+  names=$(grep -oE '^func (Test[A-Za-z0-9_]+)' "$wt/$pkg/zz_demo_test.go" | awk '{print $2}' | paste -sd'|')
+  (cd "$wt" && go test $race -count=1 -run "^($names)\$" ./$pkg > /tmp/vm/re.$name.demo_with.log 2>&1) && echo "demo WITH change: PASS (unexpected)" || echo "demo WITH change: FAIL (expected)"
+  git apply -R "$patch"
+  (cd "$wt" && go test $race -count=1 -run "^($names)\$" ./$pkg > /tmp/vm/re.$name.demo_without.log 2>&1) && echo "demo WITHOUT change: PASS (expected)" || { echo "demo WITHOUT change: FAIL (unexpected)"; tail -5 /tmp/vm/re.$name.demo_without.log; }
+  cd /; git -C /repo worktree remove --force "$wt"
+  exit 0
+fi
 if [ "$mode" = check ]; then
   dir=$2; prop=$3; tier=${4:-quick}
   wt=/tmp/vm/run.$$; mkdir -p /tmp/vm; git -C /repo worktree prune
